@@ -239,7 +239,7 @@ def anyBlock (path : Str) (m : Str) (an : Option Node) (st : St) : St × Option 
     match findMethod c.methods m with
     | some h => (st, some h)
     | none =>
-      let st := if st.best.isNone then { st with best := some (bestOf c) } else st
+      let st := { st with best := if st.best.isNone then some (bestOf c) else st.best }
       match c.nf with
       | some h => (st, some h)
       | none => (leaveRestore c.kind c.pre.length st, none)   -- back from the any child
@@ -258,7 +258,7 @@ def isLeafNode (n : Node) : Bool := n.statics.isEmpty && n.param.isNone && n.any
     without handlers) -/
 def nodeEnd (m : Str) (ms : List (Str × RouteMethod)) (nf : Option RouteMethod) (op : Str)
     (atEnd : Bool) (st : St) : St × Option RouteMethod :=
-  let st := if atEnd ∧ !ms.isEmpty ∧ st.best.isNone then { st with best := some ⟨ms, nf, op⟩ } else st
+  let st := { st with best := if atEnd ∧ !ms.isEmpty ∧ st.best.isNone then some ⟨ms, nf, op⟩ else st.best }
   (st, if atEnd then (if !ms.isEmpty then findMethod ms m else nf) else none)
 
 /-- where the Find loop goes on after a block -/
